@@ -71,7 +71,7 @@ func init() {
 	def("C06", propCfg{fuzz: []string{"FuzzXML"}})
 	def("C07", propCfg{fuzz: []string{"FuzzJSON"}})
 	def("C08", propCfg{fuzz: []string{"FuzzNumber"}})
-	def("C09", propCfg{node: true})
+	def("C09", propCfg{node: true, fuzz: []string{"FuzzJS", "FuzzHTML", "FuzzCSS", "FuzzSVG", "FuzzXML", "FuzzJSON"}})
 	def("C10", propCfg{fuzz: []string{"FuzzJS", "FuzzHTML", "FuzzCSS", "FuzzSVG", "FuzzXML", "FuzzJSON"}})
 	def("C11", propCfg{})
 	def("C12", propCfg{race: true})
@@ -399,7 +399,7 @@ func runFuzz(cfg propCfg, target, scratch string, env []string) (int64, []string
 	os.MkdirAll(cache, 0o755)
 	fenv := append(append([]string{}, env...), "VERIF_OUT="+filepath.Join(scratch, "fuzzout"), "VERIF_SHARD=0", "VERIF_NSHARDS=1")
 	os.MkdirAll(filepath.Join(scratch, "fuzzout"), 0o755)
-	args := []string{"test", "-tags", "verif", "-vet=off", "-run", "^$", "-fuzz", "^" + target + "$", "-fuzztime", cfg.fuzzTime.String(), "-test.fuzzcachedir", cache, cfg.pkg}
+	args := []string{"test", "-tags", "verif", "-vet=off", "-run", "^$", "-fuzz", "^" + target + "$", "-fuzztime", cfg.fuzzTime.String(), cfg.pkg, "-test.fuzzcachedir", cache}
 	out, err := runCmd(harness, fenv, cfg.fuzzTime+10*time.Minute, "go", args...)
 	var crashers []string
 	if es, e2 := os.ReadDir(crashDir); e2 == nil {
